@@ -116,6 +116,7 @@ func runOne(id string, pc *propCheck, wp **World, root, verif, tier string, seed
 	w := *wp
 	resetCaches()
 	r := NewReport(id, tier, w)
+	theWorld = w
 	pc.run(w, r)
 	if tier == "thorough" {
 		thoroughExtras(id, pc, w, r, abs)
@@ -163,6 +164,7 @@ func thoroughExtras(id string, pc *propCheck, w *World, r *Report, root string) 
 	for _, bc := range buildConfigs {
 		func() {
 			defer func() {
+				theWorld = w
 				if e := recover(); e != nil {
 					msg := fmt.Sprint(e)
 					if u, ok := e.(undecidedErr); ok {
@@ -174,7 +176,9 @@ func thoroughExtras(id string, pc *propCheck, w *World, r *Report, root string) 
 			resetCaches()
 			w2 := Load(root, bc.env...)
 			r2 := NewReport(id, "thorough", w2)
+			theWorld = w2
 			pc.run(w2, r2)
+			theWorld = w
 			diffs := []string{}
 			if f2 := strings.Join(w2.Files, ","); f2 != baseFiles {
 				diffs = append(diffs, "the set of analysed files differs: "+f2)
